@@ -191,6 +191,8 @@ fn probe(_args: &Args) -> i32 {
 
 fn main() {
     let (sub, args) = Args::parse();
+    // panics inside guarded tasks are reported as step / observation errors, not on stderr
+    std::panic::set_hook(Box::new(|_| {}));
     let code = match sub.as_str() {
         "c06" => run_c06(&args),
         "probe" => probe(&args),
